@@ -37,6 +37,7 @@ func init() {
 // c01Side is the filter registration of one side: legacy single filter, k middlewares, i pre and j post filters.
 type c01Side struct {
 	Legacy bool `json:"legacy"`
+	LGen   int  `json:"lgen,omitempty"` // how many times the legacy single filter has been registered beyond the first (the last one counts)
 	Mws    int  `json:"mws"`
 	Pres   int  `json:"pres"`
 	Posts  int  `json:"posts"`
@@ -45,7 +46,11 @@ type c01Side struct {
 func (s c01Side) String() string {
 	var p []string
 	if s.Legacy {
-		p = append(p, "legacy")
+		if s.LGen > 0 {
+			p = append(p, fmt.Sprintf("legacy#%d", s.LGen+1))
+		} else {
+			p = append(p, "legacy")
+		}
 	}
 	if s.Mws > 0 {
 		p = append(p, fmt.Sprintf("mw%d", s.Mws))
@@ -121,6 +126,11 @@ type c01Case struct {
 	Cfg   c01Cfg    `json:"cfg"`
 	Calls []c01Call `json:"calls"`
 	Burst *c01Burst `json:"burst,omitempty"`
+	// Stage: cases of one stage run in ONE child in order; the child registers the filters a case has beyond its
+	// predecessor's just before running it (filters registered between calls)
+	Stage string `json:"stage,omitempty"`
+	// Seg: re-segmentation mode of the relay while this case runs (see c01Seg)
+	Seg int `json:"seg,omitempty"`
 	Died  string    `json:"died,omitempty"`
 }
 
@@ -275,6 +285,30 @@ func c01Gen(tier string, rng *rand.Rand) []c01Case {
 			}
 			out = append(out, cs)
 		}
+		// pipelined concurrent callers through the re-segmenting relay: every write ends 0..5 bytes into the next
+		// frame's length header, single bytes, everything coalesced (both directions)
+		if ci == 0 || ci == 4 || tier == "thorough" {
+			for seg := 1; seg <= 8; seg++ {
+				reps := 2
+				if seg == 7 {
+					reps = 1
+				}
+				for r := 0; r < reps; r++ {
+					cs := c01Case{Cfg: cfg, Seg: seg}
+					for k := 0; k < 12; k++ {
+						c := c01RandCall(rng, []string{"fInt", "fBool", "fLong", "fShort", "note", "fEnum", "fString"}[rng.Intn(7)])
+						c.ErrKind = 0
+						if c.NOpts >= 1 && c.CtxKind == 0 {
+							c.CtxKind = 1
+						}
+						c.NOpts = []int{0, 0, 1}[rng.Intn(3)]
+						c.OneWay = c.Fn == "note" && rng.Intn(2) == 0
+						cs.Calls = append(cs.Calls, c)
+					}
+					out = append(out, cs)
+				}
+			}
+		}
 		// high-contention burst (one configuration in the quick tier, every configuration in the thorough tier)
 		if ci == 0 || tier == "thorough" {
 			out = append(out, c01Case{Cfg: cfg, Burst: &c01Burst{G: 64, N: 300}})
@@ -303,6 +337,56 @@ func c01Gen(tier string, rng *rand.Rand) []c01Case {
 			out = append(out, cs)
 		}
 	}
+	out = append(out, c01StagedCases(tier, rng)...)
+	return out
+}
+
+// c01StagedCases: filters registered BETWEEN calls, on both sides, in every registration style. After each registration
+// the very next calls (a normal one, a failing one, a one-way one, a few concurrent ones) must run through exactly the
+// currently registered pass-through filters, in order, once each.
+func c01StagedCases(tier string, rng *rand.Rand) []c01Case {
+	type step func(c *c01Cfg)
+	stages := map[string][]step{
+		"server-middlewares": {func(c *c01Cfg) {}, func(c *c01Cfg) { c.S.Mws++ }, func(c *c01Cfg) { c.S.Mws++ }, func(c *c01Cfg) { c.S.Mws++ }},
+		"client-middlewares": {func(c *c01Cfg) {}, func(c *c01Cfg) { c.C.Mws++ }, func(c *c01Cfg) { c.C.Mws++ }, func(c *c01Cfg) { c.C.Mws++ }},
+		"pre-post-lists": {func(c *c01Cfg) {}, func(c *c01Cfg) { c.S.Pres++ }, func(c *c01Cfg) { c.S.Posts++ }, func(c *c01Cfg) { c.C.Pres++ },
+			func(c *c01Cfg) { c.C.Posts++ }, func(c *c01Cfg) { c.S.Pres++; c.C.Posts++ }, func(c *c01Cfg) { c.S.Posts++; c.C.Pres++ }},
+		"legacy-replaced": {func(c *c01Cfg) {}, func(c *c01Cfg) { c.S.Legacy = true }, func(c *c01Cfg) { c.S.LGen++ }, func(c *c01Cfg) { c.C.Legacy = true },
+			func(c *c01Cfg) { c.C.LGen++ }, func(c *c01Cfg) { c.S.LGen++; c.C.LGen++ }},
+		"lists-then-chain-then-legacy": {func(c *c01Cfg) { c.S.Pres, c.C.Posts = 1, 1 }, func(c *c01Cfg) { c.S.Mws++ }, func(c *c01Cfg) { c.C.Mws++ },
+			func(c *c01Cfg) { c.S.Posts++; c.S.Mws++ }, func(c *c01Cfg) { c.S.Legacy = true }, func(c *c01Cfg) { c.C.Legacy = true }},
+	}
+	names := []string{"server-middlewares", "client-middlewares", "pre-post-lists", "legacy-replaced", "lists-then-chain-then-legacy"}
+	var out []c01Case
+	for _, name := range names {
+		var cfg c01Cfg
+		for _, st := range stages[name] {
+			st(&cfg)
+			mk := func(fn string) c01Call {
+				c := c01RandCall(rng, fn)
+				c.ErrKind, c.OneWay = 0, false
+				if c.NOpts >= 1 && c.CtxKind == 0 {
+					c.CtxKind = 1
+				}
+				return c
+			}
+			a := mk([]string{"fInt", "fString", "noArgs", "fItem"}[rng.Intn(4)])
+			out = append(out, c01Case{Cfg: cfg, Stage: name, Calls: []c01Call{a}})
+			b := mk("fBool")
+			b.ErrKind, b.ErrCode, b.ErrMsg = 1, 78, B("staged failure")
+			out = append(out, c01Case{Cfg: cfg, Stage: name, Calls: []c01Call{b}})
+			w := mk("note")
+			w.OneWay = true
+			out = append(out, c01Case{Cfg: cfg, Stage: name, Calls: []c01Call{w}})
+			if tier == "thorough" {
+				cs := c01Case{Cfg: cfg, Stage: name}
+				for k := 0; k < 5; k++ {
+					cs.Calls = append(cs.Calls, mk([]string{"fInt", "fLong", "fString"}[rng.Intn(3)]))
+				}
+				out = append(out, cs)
+			}
+		}
+	}
 	return out
 }
 
@@ -313,6 +397,9 @@ func c01RunAll(outDir string, cs []c01Case) [][]Failure {
 	var order []string
 	for i := range cs {
 		k := cs[i].Cfg.String()
+		if cs[i].Stage != "" {
+			k = "stage:" + cs[i].Stage
+		}
 		if _, ok := groups[k]; !ok {
 			order = append(order, k)
 		}
@@ -437,6 +524,12 @@ func c01Coq(c *c01Case) []string {
 func c01Class(c *c01Case) string {
 	if c.Burst != nil {
 		return fmt.Sprintf("%s/burst%dx%d", c.Cfg, c.Burst.G, c.Burst.N)
+	}
+	if c.Stage != "" {
+		return fmt.Sprintf("stage:%s/%s/calls%d", c.Stage, c.Cfg, len(c.Calls))
+	}
+	if c.Seg != 0 {
+		return fmt.Sprintf("%s/seg%d/concurrent%d", c.Cfg, c.Seg, len(c.Calls))
 	}
 	if len(c.Calls) == 1 {
 		k := c.Calls[0]
